@@ -119,7 +119,7 @@ Hypothesis Hwf : wf_scen sc = true.
 Hypothesis Hdust : sc_cs_acts sc = false \/ sc_fails_default sc = [].
 
 Definition stage_done (o : list out) (rp : list (N * N)) (g : stage) : Prop :=
-  incl (s_outs g) o /\ (forall x, s_rep g = Some x -> In x rp).
+  incl (s_outs g) o /\ incl (s_rep g) rp.
 Definition stages_done (o : list out) (rp : list (N * N)) (r : rspec) (p : nat) : Prop :=
   forall j g, j < p -> nth_error (r_stages r) j = Some g -> stage_done o rp g.
 Definition A_done (o : list out) := incl (map OFail (sc_fails_default sc)) o.
